@@ -143,8 +143,9 @@ class Contract:
     def __init__(self, target, requires=(), ensures=(), modifies=(), types=None, returns=None, inline=False,
                  loop_invariants=None, raises=(), allocates=False, assumed=False, hints=(), ghost_updates=(),
                  props=(), decreases=None, pure=False, note="", cases=None, call_assumes=None, at_call=None,
-                 expect_calls=None, lemma_after=None, refines=None, yields=None, gen_kind=None):
+                 expect_calls=None, lemma_after=None, refines=None, yields=None, gen_kind=None, loop_assumes_inv=False):
         self.target = target
+        self.loop_assumes_inv = loop_assumes_inv   # INV(...) requires are also assumed at the unit's loop heads (listed as assumptions)
         self.yields = yields            # generator functions: text of a lambda k: <the k-th yielded value> (k from 0), proved at every `yield`
         self.gen_kind = gen_kind        # ... and the `gen:<kind>` name under which fields holding such generators are declared
         self.refines = refines          # name of the class-level contract this one refines: callers whose static receiver type is wider
@@ -310,7 +311,8 @@ class Executor:
             at = None
             if z3.is_store(arr) and arr.arg(0).eq(cur):
                 at = arr.arg(1)
-            self.write_log.append((name, at, hint, fresh_obj, preds, list(st.pc) if at is not None and not fresh_obj else None))
+            self.write_log.append((name, at, hint, fresh_obj, preds,
+                                   list(st.pc) if ((at is not None and not fresh_obj) or (preds is not None and not (isinstance(preds, tuple) and preds and preds[0] == "classes"))) else None))
 
     def named_heap(self, st, name):
         """the current array of heap `name` as a constant (for use in quantifier patterns: z3 rewrites
@@ -1596,6 +1598,8 @@ class Executor:
             # nothing passes the filter  <=>  empty result (helps `len(waiting) > 0` tests)
             ax.append(smt.forall([j], z3.Implies(z3.And(0 <= j, j < Len(S0), Fk(j), Pk(j)), Len(R_) > 0),
                                 patterns=[At(S0, j)]))
+            if isinstance(elt, ast.Name) and isinstance(g.target, ast.Name) and elt.id == g.target.id:
+                ax.append(z3.Implies(smt.NoDup(S0), smt.NoDup(R_)))     # a sub-sequence of a duplicate-free sequence
             ax.append(z3.Implies(Len(R_) > 0, z3.And(0 <= idx(0), idx(0) < Len(S0), Pk(idx(0)), Fk(idx(0)), At(R_, 0) == Ek(idx(0)))))
             ax.append(z3.Implies(Len(R_) > 0, z3.And(0 <= idx(Len(R_) - 1), idx(Len(R_) - 1) < Len(S0), Pk(idx(Len(R_) - 1)),
                                                     At(R_, Len(R_) - 1) == Ek(idx(Len(R_) - 1)))))
